@@ -72,12 +72,26 @@ Mixed(m, o, u) ==
     [] m = 24 -> Un(u, Cl("f", <<Bn(o, A, B)>>))
 
 MkRow(kind, t) ==
-  [k |-> kind, tree |-> t, min |-> Min(t), full |-> Full(t), stmt |-> "expr", done |-> TRUE]
+  [k |-> kind, tree |-> t, min |-> Min(t), full |-> Full(t), leafy |-> Leafy(t), stmt |-> "expr", done |-> TRUE]
 
 \* assignments: the whole expression to the right is the value
 MkAsg(op, t) ==
   [k |-> "assign", tree |-> <<"asg", op, "x", t>>, min |-> <<"x", op>> \o Min(t), full |-> <<"x", op>> \o Full(t),
-   stmt |-> "assign", done |-> TRUE]
+   leafy |-> <<"x", op>> \o Leafy(t), stmt |-> "assign", done |-> TRUE]
+
+\* ---- nested ternaries: texts which must be rejected ------------------------------------------
+\* an inner ternary written without parentheses in the else arm, in the then arm and in the condition's
+\* place after a complete ternary, the then arm of the outer one starting with every kind of token
+ArmStarts == << <<"b">>, <<"(", "b", ")">>, <<"-", "b">>, <<"!", "b">>, <<"f", "(", "b", ")">>, <<"b", "[", "c", "]">>,
+                <<"(", "b", ")", "+", "c">>, <<"-", "b", "*", "c">>, <<"b", "+", "c">> >>
+NestedToks(shape, arm) ==
+  CASE shape = 1 -> <<"a", "?">> \o arm \o <<":", "c", "?", "d", ":", "e">>                    \* in the else arm
+    [] shape = 2 -> <<"a", "?">> \o arm \o <<"?", "c", ":", "d", ":", "e">>                    \* in the then arm
+    [] shape = 3 -> <<"a", "?">> \o arm \o <<":", "c", "+", "d", "?", "e", ":", "a">>          \* in the else arm, after an operator
+    [] shape = 4 -> <<"f", "(", "a", "?">> \o arm \o <<":", "c", "?", "d", ":", "e", ")">>     \* inside a call
+    [] shape = 5 -> <<"x", "+", "a", "?">> \o arm \o <<":", "-", "c", "?", "d", ":", "e">>
+NestedRow(shape, a) == [k |-> "nested", tree |-> <<"none">>, min |-> NestedToks(shape, ArmStarts[a]), full |-> <<>>, leafy |-> <<>>,
+                        stmt |-> "reject", done |-> TRUE]
 AsgOps == <<"=", "+=", "-=", "*=", "/=">>
 
 Init ==
@@ -87,6 +101,7 @@ Init ==
   \/ /\ Tier = "thorough"
      /\ \E o1 \in 1..NB, o2 \in 1..NB : row = [k |-> "quad0", o1 |-> o1, o2 |-> o2, done |-> FALSE]
   \/ \E a \in 1..Len(AsgOps) : row = [k |-> "asg0", op |-> AsgOps[a], done |-> FALSE]
+  \/ \E sh \in 1..5 : row = [k |-> "nest0", sh |-> sh, done |-> FALSE]
 
 Next ==
   /\ ~row.done
@@ -101,6 +116,8 @@ Next ==
         /\ \E o3 \in 1..NB, o4 \in 1..NB :
              /\ \E t \in AllTrees(<<BinOpList[row.o1], BinOpList[row.o2], BinOpList[o3], BinOpList[o4]>>, <<A, B, C, D, E5>>) :
                   row' = MkRow("quad", t)
+     \/ /\ row.k = "nest0"
+        /\ \E a \in 1..Len(ArmStarts) : row' = NestedRow(row.sh, a)
      \/ /\ row.k = "mixed0"
         /\ \E o \in 1..NB, u \in 1..NP : row' = MkRow("mixed", Mixed(row.m, BinOpList[o], PrefixOps[u]))
      \/ /\ row.k = "asg0"
@@ -115,8 +132,12 @@ Spec == Init /\ [][Next]_vars
 \* ---- checked on the model: the printer is the inverse of the grammar --------------
 ExprTree(r) == IF r.stmt = "assign" THEN r.tree[4] ELSE r.tree
 ExprToks(r, ts) == IF r.stmt = "assign" THEN SubSeq(ts, 3, Len(ts)) ELSE ts
-RoundTrip == row.done => /\ Parse(ExprToks(row, row.min)) = ExprTree(row)
+RoundTrip == (row.done /\ row.stmt # "reject") =>
+                         /\ Parse(ExprToks(row, row.min)) = ExprTree(row)
                          /\ Parse(ExprToks(row, row.full)) = ExprTree(row)
+                         /\ Parse(ExprToks(row, row.leafy)) = ExprTree(row)
+\* the model grammar refuses every nested ternary
+NestedRejected == (row.done /\ row.stmt = "reject") => Parse(row.min) = PERR
 
 \* regrouping a pair of operators changes the minimal text, i.e. parentheses are needed
 \* exactly when they regroup
